@@ -762,7 +762,7 @@ def oracle_fit_structure(mon, a0, b0, fl_rfi, fl_mef, out):
         z = std_crv(np.array([0.0]))[0]
         z2 = std_crv(0.0)
     mon.chk(z == 0 and z2 == 0, 'fit:std-crv-not-zero-at-zero', at_zero=float(z), **d)
-    mon.chk(np.array_equal(ym, -y), 'fit:std-crv-not-odd', **d)
+    mon.chk(np.array_equal(ym, -y, equal_nan=True), 'fit:std-crv-not-odd', **d)
     if params[0] > 0 and np.all(np.isfinite(y)):
         mon.chk(bool(np.all(np.diff(y) > 0)), 'fit:std-crv-not-increasing', **d)
     with np.errstate(all='ignore'):
